@@ -120,6 +120,13 @@ CHECKS["C17"] = ("exploration", "expired-token injection monitor: the independen
     "Lifetimes 1 s and 2 s, Sign and SignAndEncrypt, margins 0.5 s and 2 s; controls under the current token precede each injection; the server case also records that the previous token is accepted while it is valid.",
     "the harness can only be late (token more expired); expiry counted from the peer's own issue stamp", "3/C17")
 
+CHECKS["C21"] = ("exploration", "client robustness monitor: the real client in a child process against a scripted server answering every request with generated decodable responses (shapes, lengths, types, statuses), panic and hang oracle per call",
+    "47 client operations incl. node helpers, subscription calls, the background publish loop, the monitor package and the reconnect actions; responses of the expected type with null / empty / short / long arrays and any status, other response types, faults; a quarter of runs also during connect, a third focused on publish responses; no panic in any goroutine, every call returns within 12000 heartbeats of its 800 ms context.",
+    "responses generated by the typed generator of C01 (values a server can encode)", "3/C21")
+CHECKS["C27"] = ("exploration", "deadlock / progress monitor: scripted server holding the outstanding PublishRequest, concurrent Subscribe / Cancel / ForgetSubscription callers with hook delays, publish outcomes incl. faults, timeouts and connection loss with and without auto-reconnect; heartbeat-counted blocked-call oracle with goroutine dump, publish-progress oracle",
+    "1-3 subscriptions, 2-8 concurrent calls (repeated cancels / forgets, unknown ids) while a publish request is outstanding, a second wave during the reconnect or shutdown the outcome sets off; every call returns within 6000 heartbeats, the client settles Connected or Closed, with subscriptions known to both sides a PublishRequest reaches the server, a fresh subscription receives a notification, Close returns.",
+    "heartbeat clock; progress is bounded progress (40 publish rounds / 8000 heartbeats)", "3/C27")
+
 NOT_YET = {}
 
 
